@@ -259,7 +259,8 @@ Definition valid (m : move) (c : cconn) : Prop :=
     cl_can_write c = true /\ cc_nextID c <= cl_maxStreamID /\ cc_goAway c = false /\
     (cc_open c <= Z.of_N (cc_maxStreams c))%Z /\
     (exists tag, In (cc_nextID c, tag) (cc_reqQueued c)) /\
-    (forall pb, opb = Some pb -> pb_id pb = cc_nextID c /\ pb_window pb = cc_streamWindow c)
+    (forall pb, opb = Some pb -> pb_id pb = cc_nextID c /\ pb_window pb = cc_streamWindow c) /\
+    cc_encTableSeen c = cc_encTableSize c
   | MPendAddDel pb => pb_id pb = cc_nextID c /\ cc_nextID c <= cl_maxStreamID
   | MRefill id =>
     exists pb pb', cl_pend_get (cc_pending c) id = Some pb /\ refill_cond pb = true /\ cl_refill pb = Some pb'
@@ -267,6 +268,10 @@ Definition valid (m : move) (c : cconn) : Prop :=
     exists pb, cl_pend_get (cc_pending c) id = Some pb /\ refill_cond pb = false /\
                (wr = true -> cl_can_write c = true /\ ((cs_n c pb =? 0)%Z && negb (cs_end c pb)) = false)
   | MWlWrite => cl_can_write c = true /\ cc_outQ c <> []
+  | MOutQDrop => cl_can_write c = false
+  | MEnc _ => cc_encTableSeen c = cc_encTableSize c
+  | MQClear => cc_closed c = true
+  | MReqKeep _ | MOpenDec => cc_goAway c = true
   | _ => True
   end.
 
@@ -289,33 +294,53 @@ Definition grants_of (m : move) : list levent :=
   | _ => []
   end.
 
-(* D P g c c': c' is c after moves that all satisfy P and whose grants are g *)
-Definition D (P : move -> Prop) (g : list levent) (c c' : cconn) : Prop :=
-  exists ms, mvs c ms c' /\ Forall P ms /\ flat_map grants_of ms = g.
+(* the DATA frames a move debits from the receive window *)
+Definition rdatas_of (m : move) : list sframe := match m with MRecvData fr _ => [fr] | _ => [] end.
 
-Lemma D_refl P c : D P [] c c.
+(* DD P g r c c': c' is c after moves that all satisfy P, whose send-window grants are g and whose debited DATA
+   frames are r; D: no DATA frame is debited *)
+Definition DD (P : move -> Prop) (g : list levent) (r : list sframe) (c c' : cconn) : Prop :=
+  exists ms, mvs c ms c' /\ Forall P ms /\ flat_map grants_of ms = g /\ flat_map rdatas_of ms = r.
+Definition D (P : move -> Prop) (g : list levent) (c c' : cconn) : Prop := DD P g [] c c'.
+
+Lemma DD_refl P c : DD P [] [] c c.
 Proof. exists []. repeat split; constructor. Qed.
 
-Lemma D_trans P g1 g2 a b c : D P g1 a b -> D P g2 b c -> D P (g1 ++ g2) a c.
+Lemma DD_trans P g1 g2 r1 r2 a b c : DD P g1 r1 a b -> DD P g2 r2 b c -> DD P (g1 ++ g2) (r1 ++ r2) a c.
 Proof.
-  intros (m1 & A1 & F1 & G1) (m2 & A2 & F2 & G2). exists (m1 ++ m2). split; [eapply mvs_app; eassumption|].
-  split; [apply Forall_app; auto|]. rewrite flat_map_app. congruence.
+  intros (m1 & A1 & F1 & G1 & R1) (m2 & A2 & F2 & G2 & R2). exists (m1 ++ m2). split; [eapply mvs_app; eassumption|].
+  split; [apply Forall_app; auto|]. rewrite !flat_map_app. split; congruence.
 Qed.
 
-Lemma D_trans0 P g a b c : D P [] a b -> D P g b c -> D P g a c.
-Proof. intros. change g with ([] ++ g). eapply D_trans; eassumption. Qed.
-
-Lemma D_one (P : move -> Prop) m c : valid m c -> P m -> D P (grants_of m) c (apply m c).
+Lemma DD_one (P : move -> Prop) m c : valid m c -> P m -> DD P (grants_of m) (rdatas_of m) c (apply m c).
 Proof.
   intros V H. exists [m]. split; [apply mvs_one; assumption|]. split; [repeat constructor; assumption|].
-  cbn [flat_map]. apply app_nil_r.
+  cbn [flat_map]. rewrite !app_nil_r. split; reflexivity.
 Qed.
 
-Lemma D_weaken (P Q : move -> Prop) g c c' : (forall m, P m -> Q m) -> D P g c c' -> D Q g c c'.
+Lemma DD_weaken (P Q : move -> Prop) g r c c' : (forall m, P m -> Q m) -> DD P g r c c' -> DD Q g r c c'.
 Proof.
   intros I (ms & A & F & G). exists ms. split; [assumption|]. split; [|assumption].
   eapply Forall_impl; eassumption.
 Qed.
+
+Lemma DD_eq P g r c c' c'' : c' = c'' -> DD P g r c c' -> DD P g r c c''.
+Proof. intros ->. auto. Qed.
+
+Lemma D_refl P c : D P [] c c.
+Proof. apply DD_refl. Qed.
+
+Lemma D_trans P g1 g2 a b c : D P g1 a b -> D P g2 b c -> D P (g1 ++ g2) a c.
+Proof. intros X Y. exact (DD_trans P g1 g2 [] [] a b c X Y). Qed.
+
+Lemma D_trans0 P g a b c : D P [] a b -> D P g b c -> D P g a c.
+Proof. intros. change g with ([] ++ g). eapply D_trans; eassumption. Qed.
+
+Lemma D_one (P : move -> Prop) m c : valid m c -> P m -> rdatas_of m = [] -> D P (grants_of m) c (apply m c).
+Proof. intros V H R. unfold D. rewrite <- R. apply DD_one; assumption. Qed.
+
+Lemma D_weaken (P Q : move -> Prop) g c c' : (forall m, P m -> Q m) -> D P g c c' -> D Q g c c'.
+Proof. apply DD_weaken. Qed.
 
 Lemma D_eq P g c c' c'' : c' = c'' -> D P g c c' -> D P g c c''.
 Proof. intros ->. auto. Qed.
@@ -333,13 +358,16 @@ Arguments MAddWindow {hstate}. Arguments MPendDel {hstate}. Arguments MPendAddDe
 Arguments MSend {hstate}. Arguments MEncSync {hstate}. Arguments MEnc {hstate}. Arguments MNextID {hstate}. Arguments MHeaders {hstate}.
 Arguments cs_n {hstate}. Arguments cs_chunk {hstate}. Arguments cs_pb {hstate}. Arguments cs_end {hstate}. Arguments cs_conn {hstate}.
 Arguments recv_data {hstate}. Arguments grants_of {hstate}.
-Arguments mvs {hstate}. Arguments D {hstate}.
+Arguments mvs {hstate}. Arguments D {hstate}. Arguments DD {hstate}. Arguments rdatas_of {hstate}.
 
 (* ---------- which goroutine makes which move ---------- *)
 
 Definition is_rl (e : cevent) : Prop := match e with CEvRL _ => True | _ => False end.
 Definition is_wl (e : cevent) : Prop :=
   match e with CEvWLIn | CEvWLOut | CEvWLWin _ | CEvWLPing | CEvWLDone => True | _ => False end.
+
+(* the two select cases of the write loop that send request bodies *)
+Definition is_wlf (e : cevent) : Prop := match e with CEvWLIn | CEvWLWin _ => True | _ => False end.
 
 (* moves any goroutine makes *)
 Definition anym {hstate} (m : move hstate) : Prop :=
@@ -359,8 +387,10 @@ Definition ev_ok {hstate} (e : cevent) (m : move hstate) : Prop :=
                flag_has (sf_flags fr) FL_ES = false /\ p = sf_payload fr
   | MRecvData fr _ => e = CEvRL (RFrame fr) /\ sf_kind fr = KData /\ sf_sid fr <> 0
   | MRlPriv _ _ _ _ _ _ _ _ | MGoAway _ | MRlDone | MReqKeep _ | MOpenDec => is_rl e
-  | MWlDone | MReqAdd _ | MInQPop | MQClear | MWlWrite | MOutQDrop | MWinCh | MPendAddDel _ | MRefill _ | MSend _ _
-  | MEncSync | MEnc _ | MNextID | MHeaders _ _ => is_wl e
+  | MWlDone | MQClear | MWlWrite | MOutQDrop => is_wl e
+  | MRefill _ | MSend _ _ => is_wlf e
+  | MWinCh => match e with CEvWLWin _ => True | _ => False end
+  | MReqAdd _ | MInQPop | MPendAddDel _ | MEncSync | MEnc _ | MNextID | MHeaders _ _ => e = CEvWLIn
   | _ => True
   end.
 
@@ -378,22 +408,26 @@ Notation move := (move hstate).
 Notation apply := (apply hstate enc_field enc_set_max).
 Notation valid := (valid hstate).
 Notation D := (D enc_field enc_set_max).
+Notation DD := (DD enc_field enc_set_max).
 Notation step := (cl_step dec_field enc_field enc_set_max cfg).
 
 Lemma D_step (P : move -> Prop) g m (c c' : cconn) :
-  valid m c -> P m -> grants_of m = [] -> D P g (apply m c) c' -> D P g c c'.
+  valid m c -> P m -> grants_of m = [] /\ rdatas_of m = [] -> D P g (apply m c) c' -> D P g c c'.
 Proof.
-  intros V H G X. change g with ([] ++ g). eapply D_trans; [|exact X]. rewrite <- G. apply D_one; assumption.
+  intros V H [G R] X. change g with ([] ++ g). eapply D_trans; [|exact X]. rewrite <- G. apply D_one; assumption.
 Qed.
 
-Lemma D_one1 (P : move -> Prop) m (c : cconn) : valid m c -> P m -> D P (grants_of m) c (apply m c).
+Lemma D_one1 (P : move -> Prop) m (c : cconn) : valid m c -> P m -> rdatas_of m = [] -> D P (grants_of m) c (apply m c).
 Proof. apply D_one. Qed.
+
+Lemma DD_any (P : move -> Prop) g r (c c' : cconn) : (forall m, anym m -> P m) -> DD anym g r c c' -> DD P g r c c'.
+Proof. intros. eapply DD_weaken; eassumption. Qed.
 
 Lemma D_any (P : move -> Prop) g (c c' : cconn) : (forall m, anym m -> P m) -> D anym g c c' -> D P g c c'.
 Proof. intros. eapply D_weaken; eassumption. Qed.
 
 (* one more move, which any goroutine may make and which needs no premise *)
-Tactic Notation "dmove" uconstr(m) := apply (D_step _ _ m); [exact I | exact I | reflexivity | ].
+Tactic Notation "dmove" uconstr(m) := apply (D_step _ _ m); [exact I | exact I | split; reflexivity | ].
 
 (* ---------- helpers ---------- *)
 
@@ -514,13 +548,13 @@ Lemma delete_pending_D' who held (c c1 : cconn) id stuck :
   cl_delete_pending who held c id = (c1, stuck) -> D anym [] c c1.
 Proof. intro E. pose proof (delete_pending_D who held c id) as H. rewrite E in H. exact H. Qed.
 
-Lemma send_pending_D e fuel : is_wl e -> forall (c : cconn) id, D (ev_ok e) [] c (fst (cl_send_pending fuel c id)).
+Lemma send_pending_D e fuel : is_wlf e -> forall (c : cconn) id, D (ev_ok e) [] c (fst (cl_send_pending fuel c id)).
 Proof.
   intro W. induction fuel as [|fuel IH]; intros c id; [apply D_refl|]. rewrite send_pending_S.
   destruct (cl_pend_get (cc_pending c) id) as [pb|] eqn:G; [|apply D_refl].
   destruct (refill_cond pb) eqn:RC.
   - destruct (cl_refill pb) as [pb'|] eqn:RF.
-    + apply (D_step _ _ (MRefill id)); [exists pb, pb'; auto | exact W | reflexivity |].
+    + apply (D_step _ _ (MRefill id)); [exists pb, pb'; auto | exact W | split; reflexivity |].
       cbn [apply]. rewrite G, RF. apply IH.
     + destruct (cl_delete_pending 1 [] c id) as [c1 stuck] eqn:DP. apply delete_pending_D' in DP.
       apply (D_any _ _ _ _ (anym_ev_ok e)).
@@ -536,24 +570,24 @@ Proof.
                            else cs_conn c pb id).
     { intro wr. cbn [apply]. rewrite G. reflexivity. }
     destruct ((cs_n c pb =? 0)%Z && negb (cs_end c pb)) eqn:Z0.
-    + apply (D_step _ _ (MSend id false)); [apply V; discriminate | exact W | reflexivity |]. rewrite A. apply D_refl.
+    + apply (D_step _ _ (MSend id false)); [apply V; discriminate | exact W | split; reflexivity |]. rewrite A. apply D_refl.
     + destruct (cl_acquire_for [] (cs_conn c pb id) (pb_tag pb) id).
       * destruct (cl_can_write (cs_conn c pb id)) eqn:CW.
-        -- apply (D_step _ _ (MSend id true)); [apply V; intros _; split; [exact CW | reflexivity] | exact W | reflexivity |].
+        -- apply (D_step _ _ (MSend id true)); [apply V; intros _; split; [exact CW | reflexivity] | exact W | split; reflexivity |].
            rewrite A. destruct (cs_end c pb); cbn [fst].
            ++ apply (D_any _ _ _ _ (anym_ev_ok e)). apply close_body_D.
            ++ apply IH.
-        -- apply (D_step _ _ (MSend id false)); [apply V; discriminate | exact W | reflexivity |]. rewrite A. apply D_refl.
-      * apply (D_step _ _ (MSend id false)); [apply V; discriminate | exact W | reflexivity |]. rewrite A.
+        -- apply (D_step _ _ (MSend id false)); [apply V; discriminate | exact W | split; reflexivity |]. rewrite A. apply D_refl.
+      * apply (D_step _ _ (MSend id false)); [apply V; discriminate | exact W | split; reflexivity |]. rewrite A.
         destruct (cl_delete_pending 1 [] (cs_conn c pb id) id) as [c3 stuck] eqn:DP. apply delete_pending_D' in DP.
         apply (D_any _ _ _ _ (anym_ev_ok e)). exact DP.
-      * apply (D_step _ _ (MSend id false)); [apply V; discriminate | exact W | reflexivity |]. rewrite A.
+      * apply (D_step _ _ (MSend id false)); [apply V; discriminate | exact W | split; reflexivity |]. rewrite A.
         apply (D_any _ _ _ _ (anym_ev_ok e)). apply go_stuck_D.
-      * apply (D_step _ _ (MSend id false)); [apply V; discriminate | exact W | reflexivity |]. rewrite A.
+      * apply (D_step _ _ (MSend id false)); [apply V; discriminate | exact W | split; reflexivity |]. rewrite A.
         apply (D_any _ _ _ _ (anym_ev_ok e)). apply go_stuck_D.
 Qed.
 
-Lemma flush_pending_D e ids : is_wl e -> forall (c : cconn), D (ev_ok e) [] c (fst (cl_flush_pending c ids)).
+Lemma flush_pending_D e ids : is_wlf e -> forall (c : cconn), D (ev_ok e) [] c (fst (cl_flush_pending c ids)).
 Proof.
   intro W. induction ids as [|id t IH]; intro c; cbn [cl_flush_pending]; [apply D_refl|].
   pose proof (send_pending_D e (cl_send_fuel c id) W c id) as H.
@@ -581,20 +615,20 @@ Qed.
 
 (* the write of HEADERS failed: the body that had just been put on c.pending is taken off again *)
 Lemma write_fail_D e (c5 : cconn) pb :
-  is_wl e -> pb_id pb = cc_nextID c5 -> cc_nextID c5 <= cl_maxStreamID ->
+  e = CEvWLIn -> pb_id pb = cc_nextID c5 -> cc_nextID c5 <= cl_maxStreamID ->
   let c6 := ccu_pending (ccu_nextID c5 (u32 (cc_nextID c5 + 2))) (cc_pending c5 ++ [pb]) in
   D (ev_ok e) [] c5 (fst (cl_delete_pending 1 [] (cl_take_req_count (cl_set_last_err c6 CEWrite) (cc_nextID c5)) (cc_nextID c5))).
 Proof.
   intros W PI IDS c6.
-  apply (D_step _ _ (MPendAddDel pb)); [split; [exact PI | exact IDS] | exact W | reflexivity |].
-  apply (D_step _ _ MNextID); [exact IDS | exact W | reflexivity |].
+  apply (D_step _ _ (MPendAddDel pb)); [split; [exact PI | exact IDS] | exact W | split; reflexivity |].
+  apply (D_step _ _ MNextID); [exact IDS | exact W | split; reflexivity |].
   cbn [apply]. cc_cbn. rewrite PI.
   unfold cl_delete_pending, cl_set_last_err, cl_take_req_count, cl_req_del. subst c6.
   destruct (cc_lastErr _) eqn:LE; cc_cbn_in LE; rewrite ?LE.
   - destruct (cl_req_find _ _) eqn:RF; cc_cbn_in RF; cc_cbn.
     + destruct (cl_pend_get (cc_pending c5 ++ [pb]) (cc_nextID c5)) as [pb0|] eqn:G;
         [|exfalso; rewrite <- PI in G; exact (pend_get_app_last _ _ G)].
-      apply (D_step _ _ (MReqTake (cc_nextID c5))); [exact I | exact I | reflexivity |].
+      apply (D_step _ _ (MReqTake (cc_nextID c5))); [exact I | exact I | split; reflexivity |].
       cbn [apply]. unfold cl_take_req_count, cl_req_del. cc_cbn. rewrite RF.
       destruct (pb_stream pb0); [|apply D_refl].
       apply (D_any _ _ _ _ (anym_ev_ok e)).
@@ -612,11 +646,11 @@ Proof.
       * apply D_refl.
       * apply go_stuck_D.
       * apply go_stuck_D.
-  - apply (D_step _ _ (MLastErr (Some CEWrite))); [exact I | exact I | reflexivity |]. cbn [apply].
+  - apply (D_step _ _ (MLastErr (Some CEWrite))); [exact I | exact I | split; reflexivity |]. cbn [apply].
     destruct (cl_req_find _ _) eqn:RF; cc_cbn_in RF; cc_cbn.
     + destruct (cl_pend_get (cc_pending c5 ++ [pb]) (cc_nextID c5)) as [pb0|] eqn:G;
         [|exfalso; rewrite <- PI in G; exact (pend_get_app_last _ _ G)].
-      apply (D_step _ _ (MReqTake (cc_nextID c5))); [exact I | exact I | reflexivity |].
+      apply (D_step _ _ (MReqTake (cc_nextID c5))); [exact I | exact I | split; reflexivity |].
       cbn [apply]. unfold cl_take_req_count, cl_req_del. cc_cbn. rewrite RF.
       destruct (pb_stream pb0); [|apply D_refl].
       apply (D_any _ _ _ _ (anym_ev_ok e)).
@@ -636,27 +670,29 @@ Proof.
       * apply go_stuck_D.
 Qed.
 
-Lemma write_request_D e (c : cconn) tag : is_wl e ->
+Lemma write_request_D e (c : cconn) tag : e = CEvWLIn ->
   D (ev_ok e) [] c (fst (cl_write_request enc_field enc_set_max c tag)).
 Proof.
-  intro W. unfold cl_write_request.
+  intro W. assert (WL : is_wlf e) by (rewrite W; exact I). unfold cl_write_request.
   destruct (cl_can_open_stream c) eqn:CO; cbn [negb]; [|apply D_refl].
   destruct (cl_ctx_get c tag) as [x|] eqn:GX; [|apply D_refl].
   destruct (ct_lckStuck x); [apply (D_any _ _ _ _ (anym_ev_ok e)); apply go_stuck_D|].
   destruct (ct_done x); [apply D_refl|].
   (* the encoder's table size *)
-  apply (D_step _ _ MEncSync); [exact I | exact W | reflexivity |]. cbn [apply].
+  apply (D_step _ _ MEncSync); [exact I | exact W | split; reflexivity |]. cbn [apply].
   set (c1 := if negb (cc_encTableSize c =? cc_encTableSeen c) then _ else c).
   assert (F1 : cl_can_open_stream c1 = true).
   { subst c1. destruct (negb (cc_encTableSize c =? cc_encTableSeen c)); assumption. }
+  assert (SYN : cc_encTableSeen c1 = cc_encTableSize c1).
+  { subst c1. destruct (cc_encTableSize c =? cc_encTableSeen c) eqn:E; cbn [negb]; [apply N.eqb_eq in E; symmetry; exact E | reflexivity]. }
   clearbody c1.
   destruct (cl_maxStreamID <? cc_nextID c1) eqn:IDS; [apply D_refl|]. apply N.ltb_ge in IDS.
   destruct (cl_request_block enc_field (cc_enc (ccu_nextID c1 (u32 (cc_nextID c1 + 2)))) (ct_req x)) as [blk e'] eqn:RB.
   unfold cl_ctx_put. cc_cbn. cc_cbn_in RB.
-  apply (D_step _ _ (MEnc (ct_req x))); [exact I | exact W | reflexivity |]. cbn [apply]. rewrite RB. cbn [snd].
+  apply (D_step _ _ (MEnc (ct_req x))); [exact SYN | exact W | split; reflexivity |]. cbn [apply]. rewrite RB. cbn [snd].
   apply (D_step _ _ (MCtxs (cl_ctxs_put (cc_ctxs c1) (ctu_sid (ctu_conn x true) (cc_nextID c1)))));
-    [exact I | exact I | reflexivity |]. cbn [apply].
-  apply (D_step _ _ (MReqAdd tag)); [split; assumption | exact W | reflexivity |]. cbn [apply]. cc_cbn.
+    [exact I | exact I | split; reflexivity |]. cbn [apply].
+  apply (D_step _ _ (MReqAdd tag)); [split; assumption | exact W | split; reflexivity |]. cbn [apply]. cc_cbn.
   pose proof (can_open_goaway _ F1) as GA. rewrite GA.
   match goal with |- D _ _ ?c0 _ => set (c5 := c0) end.
   assert (CO5 : (cc_open c5 <= Z.of_N (cc_maxStreams c5))%Z).
@@ -667,12 +703,12 @@ Proof.
   assert (VH : forall opb, cl_can_write c1 = true ->
                  (forall pb, opb = Some pb -> pb_id pb = cc_nextID c1 /\ pb_window pb = cc_streamWindow c1) ->
                  valid (MHeaders blk opb) c5).
-  { intros opb CWE H. split; [exact CWE|]. split; [exact IDS|]. split; [exact GA|]. split; [exact CO5|]. split; [exact RQ5|exact H]. }
+  { intros opb CWE H. split; [exact CWE|]. split; [exact IDS|]. split; [exact GA|]. split; [exact CO5|]. split; [exact RQ5|]. split; [exact H | exact SYN]. }
   destruct (cq_body (ct_req x)) as [b|reads size] eqn:BD; [destruct b as [|b0 bt]|]; cbn [cl_is_nil negb].
   - (* no body *)
     unfold cl_can_write at 1. cc_cbn. fold (cl_can_write c1). destruct (cl_can_write c1) eqn:CWE.
-    + apply (D_step _ _ (MHeaders blk None)); [apply VH; [reflexivity | discriminate] | exact W | reflexivity |]. apply D_refl.
-    + apply (D_step _ _ MNextID); [exact IDS | exact W | reflexivity |].
+    + apply (D_step _ _ (MHeaders blk None)); [apply VH; [reflexivity | discriminate] | exact W | split; reflexivity |]. apply D_refl.
+    + apply (D_step _ _ MNextID); [exact IDS | exact W | split; reflexivity |].
       apply (D_any _ _ _ _ (anym_ev_ok e)).
       match goal with |- context [cl_delete_pending ?w ?h ?cc ?i] =>
         pose proof (delete_pending_D w h cc i) as H; destruct (cl_delete_pending w h cc i) as [c8 st] end.
@@ -681,10 +717,10 @@ Proof.
   - (* a buffered body *)
     unfold cl_can_write at 1. cc_cbn. fold (cl_can_write c1). destruct (cl_can_write c1) eqn:CWE.
     + set (pb := mkCPB (cc_nextID c1) tag (b0 :: bt) (cc_streamWindow c1) None (-1) 0 false).
-      apply (D_step _ _ (MHeaders blk (Some pb))); [apply VH; [reflexivity|] | exact W | reflexivity |].
+      apply (D_step _ _ (MHeaders blk (Some pb))); [apply VH; [reflexivity|] | exact W | split; reflexivity |].
       { intros pb' E. inversion E. subst pb'. split; reflexivity. }
       match goal with |- D _ _ ?a (fst (match cl_send_pending ?f ?b ?i with _ => _ end)) =>
-        change a with b; pose proof (send_pending_D e f W b i) as H; destruct (cl_send_pending f b i) as [c8 r] end.
+        change a with b; pose proof (send_pending_D e f WL b i) as H; destruct (cl_send_pending f b i) as [c8 r] end.
       cbn [fst] in H. destruct r; exact H.
     + set (pb := mkCPB (cc_nextID c1) tag (b0 :: bt) (cc_streamWindow c1) None (-1) 0 false).
       pose proof (write_fail_D e c5 pb W eq_refl IDS) as H. cbv zeta in H.
@@ -694,10 +730,10 @@ Proof.
   - (* a streamed body *)
     unfold cl_can_write at 1. cc_cbn. fold (cl_can_write c1). destruct (cl_can_write c1) eqn:CWE.
     + set (pb := mkCPB (cc_nextID c1) tag [] (cc_streamWindow c1) (Some reads) size 0 (size =? 0)%Z).
-      apply (D_step _ _ (MHeaders blk (Some pb))); [apply VH; [reflexivity|] | exact W | reflexivity |].
+      apply (D_step _ _ (MHeaders blk (Some pb))); [apply VH; [reflexivity|] | exact W | split; reflexivity |].
       { intros pb' E. inversion E. subst pb'. split; reflexivity. }
       match goal with |- D _ _ ?a (fst (match cl_send_pending ?f ?b ?i with _ => _ end)) =>
-        change a with b; pose proof (send_pending_D e f W b i) as H; destruct (cl_send_pending f b i) as [c8 r] end.
+        change a with b; pose proof (send_pending_D e f WL b i) as H; destruct (cl_send_pending f b i) as [c8 r] end.
       cbn [fst] in H. destruct r; exact H.
     + set (pb := mkCPB (cc_nextID c1) tag [] (cc_streamWindow c1) (Some reads) size 0 (size =? 0)%Z).
       pose proof (write_fail_D e c5 pb W eq_refl IDS) as H. cbv zeta in H.
@@ -708,30 +744,47 @@ Qed.
 
 (* ---------- the write loop ---------- *)
 
+Lemma closed_ctx_upd (c : cconn) tag f : cc_closed (cl_ctx_upd c tag f) = cc_closed c.
+Proof. unfold cl_ctx_upd. destruct (cl_ctx_get c tag); reflexivity. Qed.
+
+Lemma closed_resolve_all tags : forall (c : cconn) e, cc_closed (cl_resolve_all c tags e) = cc_closed c.
+Proof.
+  induction tags as [|t r IH]; intros c e; cbn [cl_resolve_all]; [reflexivity|].
+  rewrite IH. apply closed_ctx_upd.
+Qed.
+
+Lemma closed_conn_close (c : cconn) : cc_closed (cl_conn_close c) = true.
+Proof.
+  unfold cl_conn_close, cl_close_begin. destruct (cc_closed c) eqn:E; [exact E|].
+  unfold cl_close_net. destruct (cl_can_write _); reflexivity.
+Qed.
+
 Lemma wl_exit_D e (c : cconn) lastErr why : is_wl e -> D (ev_ok e) [] c (cl_wl_exit c lastErr why).
 Proof.
   intro W. unfold cl_wl_exit.
   set (le := match lastErr with Some e0 => e0 | None => CEConn end).
   eapply D_trans0; [apply (D_any _ _ _ _ (anym_ev_ok e)), (set_last_err_D c le)|].
   eapply D_trans0; [apply (D_any _ _ _ _ (anym_ev_ok e)), (conn_close_D (cl_set_last_err c le))|].
-  set (c1 := cl_conn_close (cl_set_last_err c le)).
+  pose proof (closed_conn_close (cl_set_last_err c le)) as CL.
+  set (c1 := cl_conn_close (cl_set_last_err c le)) in *.
   eapply D_trans0; [apply (D_any _ _ _ _ (anym_ev_ok e)), (resolve_all_D (map snd (cc_reqQueued c1)) c1 le)|].
-  apply (D_step _ _ MReqClear); [exact I | exact I | reflexivity |]. cbn [apply].
+  apply (D_step _ _ MReqClear); [exact I | exact I | split; reflexivity |]. cbn [apply].
   set (c2 := ccu_reqQueued (cl_resolve_all c1 (map snd (cc_reqQueued c1)) le) []).
+  assert (CL2 : cc_closed c2 = true) by (subst c2; cc_cbn; rewrite closed_resolve_all; exact CL).
   eapply D_trans0; [apply (D_any _ _ _ _ (anym_ev_ok e)), (resolve_all_D (cc_inQ c2) c2 le)|].
-  apply (D_step _ _ MQClear); [exact I | exact W | reflexivity |]. cbn [apply].
-  apply (D_step _ _ MWlDone); [exact I | exact W | reflexivity |]. cbn [apply].
-  apply (D_step _ _ (MNote (COExit 1 why))); [exact I | exact I | reflexivity |]. apply D_refl.
+  apply (D_step _ _ MQClear); [cbn [valid]; rewrite closed_resolve_all; exact CL2 | exact W | split; reflexivity |]. cbn [apply].
+  apply (D_step _ _ MWlDone); [exact I | exact W | split; reflexivity |]. cbn [apply].
+  apply (D_step _ _ (MNote (COExit 1 why))); [exact I | exact I | split; reflexivity |]. apply D_refl.
 Qed.
 
 Lemma wl_after_D e (c : cconn) : is_wl e -> D (ev_ok e) [] c (cl_wl_after cfg c).
 Proof. intro W. unfold cl_wl_after. destruct (_ && _); [apply wl_exit_D; exact W | apply D_refl]. Qed.
 
-Lemma wl_in_D e (c : cconn) : is_wl e -> D (ev_ok e) [] c (cl_wl_in enc_field enc_set_max cfg c).
+Lemma wl_in_D e (c : cconn) : e = CEvWLIn -> D (ev_ok e) [] c (cl_wl_in enc_field enc_set_max cfg c).
 Proof.
-  intro W. unfold cl_wl_in. destruct (cc_inQ c) as [|tag q] eqn:Q; [apply D_refl|].
-  apply (D_step _ _ MInQPop); [exact I | exact W | reflexivity |]. cbn [apply]. rewrite Q. cbn [tl].
-  pose proof (write_request_D e (ccu_inQ c q) tag W) as H.
+  intro WI. assert (W : is_wl e) by (rewrite WI; exact I). unfold cl_wl_in. destruct (cc_inQ c) as [|tag q] eqn:Q; [apply D_refl|].
+  apply (D_step _ _ MInQPop); [exact I | exact WI | split; reflexivity |]. cbn [apply]. rewrite Q. cbn [tl].
+  pose proof (write_request_D e (ccu_inQ c q) tag WI) as H.
   destruct (cl_write_request enc_field enc_set_max (ccu_inQ c q) tag) as [c1 r]. cbn [fst] in H.
   eapply D_trans0; [exact H|]. destruct r as [|er|].
   - apply wl_after_D; exact W.
@@ -744,26 +797,26 @@ Lemma wl_out_D e (c : cconn) : is_wl e -> D (ev_ok e) [] c (cl_wl_out cfg c).
 Proof.
   intro W. unfold cl_wl_out. destruct (cc_outQ c) as [|o q] eqn:Q; [apply D_refl|].
   destruct (cl_can_write (ccu_outQ c q)) eqn:CW.
-  - apply (D_step _ _ MWlWrite); [split; [exact CW | rewrite Q; discriminate] | exact W | reflexivity |].
+  - apply (D_step _ _ MWlWrite); [split; [exact CW | rewrite Q; discriminate] | exact W | split; reflexivity |].
     cbn [apply]. rewrite Q. apply wl_after_D; exact W.
-  - apply (D_step _ _ MOutQDrop); [exact I | exact W | reflexivity |]. cbn [apply]. rewrite Q. cbn [tl].
+  - apply (D_step _ _ MOutQDrop); [exact CW | exact W | split; reflexivity |]. cbn [apply]. rewrite Q. cbn [tl].
     apply wl_exit_D; exact W.
 Qed.
 
-Lemma wl_win_D e (c : cconn) order : is_wl e -> D (ev_ok e) [] c (cl_wl_win cfg c order).
+Lemma wl_win_D (c : cconn) order : D (ev_ok (CEvWLWin order)) [] c (cl_wl_win cfg c order).
 Proof.
-  intro W. unfold cl_wl_win. destruct (cc_winCh c); cbn [negb]; [|apply D_refl].
-  apply (D_step _ _ MWinCh); [exact I | exact W | reflexivity |]. cbn [apply].
-  pose proof (flush_pending_D e (cl_pending_order (ccu_winCh c false) order) W (ccu_winCh c false)) as H.
+  unfold cl_wl_win. destruct (cc_winCh c); cbn [negb]; [|apply D_refl].
+  apply (D_step _ _ MWinCh); [exact I | exact I | split; reflexivity |]. cbn [apply].
+  pose proof (flush_pending_D (CEvWLWin order) (cl_pending_order (ccu_winCh c false) order) I (ccu_winCh c false)) as H.
   destruct (cl_flush_pending _ _) as [c2 r]. cbn [fst] in H. eapply D_trans0; [exact H|].
-  destruct r; [apply wl_after_D | apply wl_exit_D | apply D_refl]; exact W.
+  destruct r; [apply wl_after_D | apply wl_exit_D | apply D_refl]; exact I.
 Qed.
 
 Lemma wl_ping_D e (c : cconn) : is_wl e -> D (ev_ok e) [] c (cl_wl_ping cfg c).
 Proof.
   intro W. unfold cl_wl_ping. destruct (cl_can_write c); [|apply wl_exit_D; exact W].
-  apply (D_step _ _ (MNote COPing)); [exact I | exact I | reflexivity |]. cbn [apply quietb].
-  apply (D_step _ _ (MUnacks (cc_unacks c + 1)%Z)); [exact I | exact I | reflexivity |]. cbn [apply].
+  apply (D_step _ _ (MNote COPing)); [exact I | exact I | split; reflexivity |]. cbn [apply quietb].
+  apply (D_step _ _ (MUnacks (cc_unacks c + 1)%Z)); [exact I | exact I | split; reflexivity |]. cbn [apply].
   apply wl_after_D; exact W.
 Qed.
 
@@ -837,12 +890,25 @@ Qed.
 Lemma fkind_eqb_eq a b : fkind_eqb a b = true <-> a = b.
 Proof. destruct a, b; cbn; split; intro H; try reflexivity; try discriminate. Qed.
 
+Lemma rl_exit_DP (P : move -> Prop) (c : cconn) why : (forall m, anym m -> P m) -> P MRlDone -> D P [] c (cl_rl_exit c why).
+Proof.
+  intros A R. unfold cl_rl_exit.
+  eapply D_trans0; [apply (D_any _ _ _ _ A), conn_close_D|].
+  apply (D_step _ _ MRlDone); [exact I | exact R | split; reflexivity |]. cbn [apply].
+  apply (D_step _ _ (MNote (COExit 0 why))); [exact I | apply A; exact I | split; reflexivity |]. apply D_refl.
+Qed.
+
+Lemma rl_fail_DP (P : move -> Prop) (c : cconn) : (forall m, anym m -> P m) -> P MRlDone -> D P [] c (cl_rl_fail c).
+Proof.
+  intros A R. unfold cl_rl_fail. eapply D_trans0; [apply (D_any _ _ _ _ A), set_last_err_D | apply rl_exit_DP; assumption].
+Qed.
+
 Lemma rl_exit_D e (c : cconn) why : is_rl e -> D (ev_ok e) [] c (cl_rl_exit c why).
 Proof.
   intro R. unfold cl_rl_exit.
   eapply D_trans0; [apply (D_any _ _ _ _ (anym_ev_ok e)), conn_close_D|].
-  apply (D_step _ _ MRlDone); [exact I | exact R | reflexivity |]. cbn [apply].
-  apply (D_step _ _ (MNote (COExit 0 why))); [exact I | exact I | reflexivity |]. apply D_refl.
+  apply (D_step _ _ MRlDone); [exact I | exact R | split; reflexivity |]. cbn [apply].
+  apply (D_step _ _ (MNote (COExit 0 why))); [exact I | exact I | split; reflexivity |]. apply D_refl.
 Qed.
 
 Lemma rl_fail_D e (c : cconn) : is_rl e -> D (ev_ok e) [] c (cl_rl_fail c).
@@ -854,11 +920,11 @@ Qed.
 Lemma rl_panic_D e (c : cconn) : is_rl e -> D (ev_ok e) [] c (cl_rl_panic c).
 Proof.
   intro R. unfold cl_rl_panic.
-  apply (D_step _ _ (MNote (COPanic 0))); [exact I | exact I | reflexivity |]. cbn [apply quietb].
+  apply (D_step _ _ (MNote (COPanic 0))); [exact I | exact I | split; reflexivity |]. cbn [apply quietb].
   eapply D_trans0; [apply (D_any _ _ _ _ (anym_ev_ok e)), (set_last_err_D (cl_note c (COPanic 0)) CEConn)|].
   set (c1 := cl_set_last_err _ _).
   eapply D_trans0; [apply (D_any _ _ _ _ (anym_ev_ok e)), (resolve_all_D (map snd (cc_reqQueued c1)) c1 CEConn)|].
-  apply (D_step _ _ MReqClear); [exact I | exact I | reflexivity |]. cbn [apply].
+  apply (D_step _ _ MReqClear); [exact I | exact I | split; reflexivity |]. cbn [apply].
   apply rl_exit_D; exact R.
 Qed.
 
@@ -871,23 +937,46 @@ Proof.
   - apply ctx_upd_D.
 Qed.
 
-Lemma goaway_fail_D e l : is_rl e -> forall (c : cconn), D (ev_ok e) [] c (fst (cl_goaway_fail c l)).
+Lemma goAway_ctx_upd (c : cconn) tag f : cc_goAway (cl_ctx_upd c tag f) = cc_goAway c.
+Proof. unfold cl_ctx_upd. destruct (cl_ctx_get c tag); reflexivity. Qed.
+
+Lemma goAway_go_stuck who held (c : cconn) self tag : cc_goAway (cl_go_stuck who held c self tag) = cc_goAway c.
 Proof.
-  intro R. induction l as [|[id tag] t IH]; intro c; cbn [cl_goaway_fail]; [apply D_refl|].
-  apply (D_step _ _ MOpenDec); [exact I | exact R | reflexivity |]. cbn [apply].
+  unfold cl_go_stuck.
+  assert (F : forall (c0 : cconn), cc_goAway (fold_left (fun c t => cl_ctx_upd c t (fun x => ctu_lckStuck x true)) held c0) = cc_goAway c0).
+  { induction held as [|t r IH]; intro c0; cbn [fold_left]; [reflexivity|]. rewrite IH. apply goAway_ctx_upd. }
+  destruct (who =? 0); [|destruct (who =? 1)]; cc_cbn; apply F.
+Qed.
+
+Lemma goAway_delete_pending who held (c : cconn) id : cc_goAway (fst (cl_delete_pending who held c id)) = cc_goAway c.
+Proof.
+  unfold cl_delete_pending. destruct (cl_pend_get _ _) as [pb|]; [|reflexivity].
+  destruct (pb_stream pb) eqn:S; [|reflexivity].
+  destruct (cl_acquire_for _ _ _ _); cbn [fst]; try reflexivity.
+  - unfold cl_close_body. rewrite S. cc_cbn. rewrite goAway_ctx_upd. reflexivity.
+  - rewrite goAway_go_stuck. reflexivity.
+  - rewrite goAway_go_stuck. reflexivity.
+Qed.
+
+Lemma goaway_fail_D e l : is_rl e -> forall (c : cconn), cc_goAway c = true -> D (ev_ok e) [] c (fst (cl_goaway_fail c l)).
+Proof.
+  intro R. induction l as [|[id tag] t IH]; intros c GA; cbn [cl_goaway_fail]; [apply D_refl|].
+  apply (D_step _ _ MOpenDec); [exact GA | exact R | split; reflexivity |]. cbn [apply].
   match goal with |- context [cl_delete_pending ?w ?h ?cc ?i] =>
-    pose proof (delete_pending_D w h cc i) as H; destruct (cl_delete_pending w h cc i) as [c2 st] end.
-  cbn [fst] in H. eapply D_trans0; [apply (D_any _ _ _ _ (anym_ev_ok e)), H|].
+    pose proof (delete_pending_D w h cc i) as H; pose proof (goAway_delete_pending w h cc i) as G;
+    destruct (cl_delete_pending w h cc i) as [c2 st] end.
+  cbn [fst] in H, G. cc_cbn_in G. eapply D_trans0; [apply (D_any _ _ _ _ (anym_ev_ok e)), H|].
   destruct st; [apply D_refl|].
   eapply D_trans0; [apply (D_any _ _ _ _ (anym_ev_ok e)), ctx_upd_D | apply IH].
+  rewrite goAway_ctx_upd, G. exact GA.
 Qed.
 
 Lemma goaway_D e (c : cconn) last : is_rl e -> D (ev_ok e) [] c (fst (cl_goaway c last)).
 Proof.
   intro R. unfold cl_goaway.
-  apply (D_step _ _ (MGoAway last)); [exact I | exact R | reflexivity |]. cbn [apply].
-  apply (D_step _ _ (MReqKeep last)); [exact I | exact R | reflexivity |]. cbn [apply].
-  apply goaway_fail_D; exact R.
+  apply (D_step _ _ (MGoAway last)); [exact I | exact R | split; reflexivity |]. cbn [apply].
+  apply (D_step _ _ (MReqKeep last)); [reflexivity | exact R | split; reflexivity |]. cbn [apply].
+  apply goaway_fail_D; [exact R | reflexivity].
 Qed.
 
 Lemma read_header_fragment_D e (c : cconn) id fragment eh res : is_rl e ->
@@ -898,27 +987,36 @@ Proof.
   destruct er.
   - destruct eh; cbn [negb].
     + destruct herr; cbn [fst].
-      * apply (D_step _ _ (MRlPriv 0 [] fields (cc_hdrEndStream c) rseen status (Some c0) d')); [exact I | exact R | reflexivity |]. apply D_refl.
-      * apply (D_step _ _ (MRlPriv 0 [] fields (cc_hdrEndStream c) rseen status None d')); [exact I | exact R | reflexivity |]. apply D_refl.
+      * apply (D_step _ _ (MRlPriv 0 [] fields (cc_hdrEndStream c) rseen status (Some c0) d')); [exact I | exact R | split; reflexivity |]. apply D_refl.
+      * apply (D_step _ _ (MRlPriv 0 [] fields (cc_hdrEndStream c) rseen status None d')); [exact I | exact R | split; reflexivity |]. apply D_refl.
     + destruct (cl_maxHeaderPrev <? len prev); cbn [fst].
-      * apply (D_step _ _ (MRlPriv 0 prev fields (cc_hdrEndStream c) rseen status herr d')); [exact I | exact R | reflexivity |]. apply D_refl.
-      * apply (D_step _ _ (MRlPriv id prev fields (cc_hdrEndStream c) rseen status herr d')); [exact I | exact R | reflexivity |]. apply D_refl.
-  - cbn [fst]. apply (D_step _ _ (MRlPriv 0 prev fields (cc_hdrEndStream c) rseen status herr d')); [exact I | exact R | reflexivity |]. apply D_refl.
-  - cbn [fst]. apply (D_step _ _ (MRlPriv 0 prev fields (cc_hdrEndStream c) rseen status herr d')); [exact I | exact R | reflexivity |]. apply D_refl.
-  - cbn [fst]. apply (D_step _ _ (MRlPriv (cc_hdrStream c) prev fields (cc_hdrEndStream c) rseen status herr d')); [exact I | exact R | reflexivity |]. apply D_refl.
+      * apply (D_step _ _ (MRlPriv 0 prev fields (cc_hdrEndStream c) rseen status herr d')); [exact I | exact R | split; reflexivity |]. apply D_refl.
+      * apply (D_step _ _ (MRlPriv id prev fields (cc_hdrEndStream c) rseen status herr d')); [exact I | exact R | split; reflexivity |]. apply D_refl.
+  - cbn [fst]. apply (D_step _ _ (MRlPriv 0 prev fields (cc_hdrEndStream c) rseen status herr d')); [exact I | exact R | split; reflexivity |]. apply D_refl.
+  - cbn [fst]. apply (D_step _ _ (MRlPriv 0 prev fields (cc_hdrEndStream c) rseen status herr d')); [exact I | exact R | split; reflexivity |]. apply D_refl.
+  - cbn [fst]. apply (D_step _ _ (MRlPriv (cc_hdrStream c) prev fields (cc_hdrEndStream c) rseen status herr d')); [exact I | exact R | split; reflexivity |]. apply D_refl.
 Qed.
 
+(* the DATA frame readStream debits *)
+Definition datar (fr : sframe) : list sframe := match sf_kind fr with KData => [fr] | _ => [] end.
+
+Lemma DD_trans0l (P : move -> Prop) g r (a b c : cconn) : D P [] a b -> DD P g r b c -> DD P g r a c.
+Proof. intros X Y. exact (DD_trans hstate enc_field enc_set_max P [] g [] r a b c X Y). Qed.
+
+Lemma DD_trans0r (P : move -> Prop) g r (a b c : cconn) : DD P g r a b -> D P [] b c -> DD P g r a c.
+Proof. intros X Y. pose proof (DD_trans hstate enc_field enc_set_max P g [] r [] a b c X Y) as H. rewrite !app_nil_r in H. exact H. Qed.
+
 Lemma read_stream_D (c : cconn) fr res : (sf_kind fr = KData -> sf_sid fr <> 0) ->
-  D (ev_ok (CEvRL (RFrame fr))) [] c (fst (fst (fst (cl_read_stream dec_field c fr res)))).
+  DD (ev_ok (CEvRL (RFrame fr))) [] (datar fr) c (fst (fst (fst (cl_read_stream dec_field c fr res)))).
 Proof.
-  intro NZ. unfold cl_read_stream. destruct (sf_kind fr) eqn:K; try apply D_refl.
+  intro NZ. unfold cl_read_stream, datar. destruct (sf_kind fr) eqn:K; try apply D_refl.
   - (* DATA *)
     cbn [fst].
-    apply (D_step _ _ (MRecvData fr (match res with Some _ => true | None => false end)));
-      [exact I | split; [reflexivity | split; [exact K | apply NZ; reflexivity]] | reflexivity |].
-    cbn [apply]. unfold recv_data. destruct res; apply D_refl.
+    eapply DD_eq; [|apply (DD_one hstate enc_field enc_set_max _ (MRecvData fr (match res with Some _ => true | None => false end)));
+                    [exact I | split; [reflexivity | split; [exact K | apply NZ; reflexivity]]]].
+    cbn [apply]. unfold recv_data. destruct res; reflexivity.
   - (* HEADERS *)
-    apply (D_step _ _ (MRlPriv (cc_hdrStream c) [] 0 (flag_has (sf_flags fr) FL_ES) false 0%Z None (cc_dec c))); [exact I | exact I | reflexivity |].
+    apply (D_step _ _ (MRlPriv (cc_hdrStream c) [] 0 (flag_has (sf_flags fr) FL_ES) false 0%Z None (cc_dec c))); [exact I | exact I | split; reflexivity |].
     apply read_header_fragment_D. exact I.
   - apply read_header_fragment_D. exact I.
 Qed.
@@ -928,7 +1026,8 @@ Ltac danym :=
         | eapply D_trans0; [| first [apply finish_D | apply ctx_put_D | apply set_last_err_D | apply take_req_D]]; danym ].
 
 Lemma dispatch_D (c : cconn) fr : (sf_kind fr = KData -> sf_sid fr <> 0) ->
-  D (ev_ok (CEvRL (RFrame fr))) [] c (fst (cl_dispatch dec_field c fr)).
+  DD (ev_ok (CEvRL (RFrame fr))) [] (match snd (cl_dispatch dec_field c fr) with CDStuck => [] | _ => datar fr end)
+     c (fst (cl_dispatch dec_field c fr)).
 Proof.
   intro NZ. unfold cl_dispatch. cbv zeta.
   set (pre := match cl_req_find (cc_reqQueued c) (sf_sid fr) with None => _ | Some _ => _ end).
@@ -938,14 +1037,14 @@ Proof.
               end).
   { subst pre. destruct (cl_req_find (cc_reqQueued c) (sf_sid fr)) as [tag|]; [|apply D_refl].
     destruct (cl_acquire_for [] c tag (sf_sid fr)); [apply D_refl | apply take_req_D | apply go_stuck_D | apply go_stuck_D]. }
-  destruct pre as [[c0 ok]|c']; [|apply (D_any _ _ _ _ (anym_ev_ok _)); exact P].
-  eapply D_trans0; [apply (D_any _ _ _ _ (anym_ev_ok _)); exact P|]. clear P.
+  destruct pre as [[c0 ok]|c']; [|cbn [fst snd]; apply (D_any _ _ _ _ (anym_ev_ok _)); exact P].
+  apply (DD_trans0l _ _ _ _ c0); [apply (D_any _ _ _ _ (anym_ev_ok _)); exact P|]. clear P.
   pose proof (read_stream_D c0 fr (match ok with Some x => Some (ct_resp x) | None => None end) NZ) as RS.
   destruct (cl_read_stream dec_field c0 fr _) as [[[c1 res'] ended] err]. cbn [fst] in RS.
-  eapply D_trans0; [exact RS|]. clear RS. apply (D_any _ _ _ _ (anym_ev_ok _)).
   match goal with |- context [let '(a, b) := ?p in _] => destruct p as [ok2 err2] end.
-  destruct ok2 as [x2|]; destruct err2; cbn [fst];
-    repeat match goal with |- context [if ?b then _ else _] => destruct b end; cbn [fst]; danym.
+  destruct ok2 as [x2|]; destruct err2; cbn [fst snd];
+    repeat match goal with |- context [if ?b then _ else _] => destruct b end; cbn [fst snd];
+    (apply (DD_trans0r _ _ _ _ c1); [exact RS|]); apply (D_any _ _ _ _ (anym_ev_ok _)); danym.
 Qed.
 
 (* the read loop takes the frame of this step in: it is running, the frame is well formed and in sequence
@@ -977,111 +1076,131 @@ Definition g_ledger_in (c : cconn) (e : cevent) : list levent :=
 Definition frame_grants (fr : sframe) : list levent :=
   match sf_kind fr with KWinUpd => [LGrant (sf_sid fr) (Z.of_N (sf_inc fr))] | _ => [] end.
 
+(* the DATA frame the step debits from the receive window: a frame taken in, unless dispatch parks the read
+   loop for ever on the Ctx lock before readStream *)
+Definition g_rdata_in (c : cconn) (e : cevent) : list sframe :=
+  match e with
+  | CEvRL (RFrame fr) =>
+    if g_rl_takes c fr && fkind_eqb (sf_kind fr) KData && negb (sf_sid fr =? 0)
+    then match snd (cl_dispatch dec_field c fr) with CDStuck => [] | _ => [fr] end
+    else []
+  | _ => []
+  end.
+
+Definition in_seq (c : cconn) (fr : sframe) : bool :=
+  if cc_hdrStream c =? 0 then negb (fkind_eqb (sf_kind fr) KCont)
+  else fkind_eqb (sf_kind fr) KCont && (sf_sid fr =? cc_hdrStream c).
+
 Lemma rl_frame_D (c : cconn) fr : (sf_kind fr = KData -> sf_sid fr <> 0) ->
-  D (ev_ok (CEvRL (RFrame fr)))
-    (if (if cc_hdrStream c =? 0 then negb (fkind_eqb (sf_kind fr) KCont)
-         else fkind_eqb (sf_kind fr) KCont && (sf_sid fr =? cc_hdrStream c)) then frame_grants fr else [])
+  DD (ev_ok (CEvRL (RFrame fr)))
+    (if in_seq c fr then frame_grants fr else [])
+    (if in_seq c fr && fkind_eqb (sf_kind fr) KData
+     then match snd (cl_dispatch dec_field c fr) with CDStuck => [] | _ => [fr] end else [])
     c (cl_rl_frame dec_field c fr).
 Proof.
-  intro NZ. unfold cl_rl_frame.
+  intro NZ. unfold cl_rl_frame, in_seq.
+  assert (EXIT : forall g, g = [] -> DD (ev_ok (CEvRL (RFrame fr))) g [] c (cl_rl_exit (cl_set_last_err c CEConn) 1)).
+  { intros g ->. eapply D_trans0; [apply (D_any _ _ _ _ (anym_ev_ok _)), set_last_err_D | apply rl_exit_D; exact I]. }
   destruct (fkind_eqb (sf_kind fr) KPush) eqn:KP.
-  { apply fkind_eqb_eq in KP. unfold frame_grants. rewrite KP. cbn [fkind_eqb negb].
-    eapply D_eq; [reflexivity|].
-    assert (G : (if if cc_hdrStream c =? 0 then true else false && (sf_sid fr =? cc_hdrStream c) then @nil levent else []) = [])
-      by (destruct (cc_hdrStream c =? 0); reflexivity).
-    cbn [andb] in G |- *. rewrite G.
-    eapply D_trans0; [apply (D_any _ _ _ _ (anym_ev_ok _)), set_last_err_D | apply rl_exit_D; exact I]. }
+  { apply fkind_eqb_eq in KP. unfold frame_grants. rewrite KP. cbn [fkind_eqb negb andb]. rewrite !andb_false_r.
+    apply EXIT. destruct (cc_hdrStream c =? 0); reflexivity. }
   destruct (cc_hdrStream c =? 0) eqn:HS; cbn [negb andb].
-  - destruct (fkind_eqb (sf_kind fr) KCont) eqn:KC; cbn [negb].
-    + eapply D_trans0; [apply (D_any _ _ _ _ (anym_ev_ok _)), set_last_err_D | apply rl_exit_D; exact I].
-    + (* in sequence *)
-      assert (T : D (ev_ok (CEvRL (RFrame fr))) (frame_grants fr) c
-                    (if fkind_eqb (sf_kind fr) KWinUpd then cl_add_window c (sf_sid fr) (Z.of_N (sf_inc fr)) else c)).
-      { unfold frame_grants. destruct (fkind_eqb (sf_kind fr) KWinUpd) eqn:KW.
-        - apply fkind_eqb_eq in KW. rewrite KW.
-          apply (D_one1 _ (MAddWindow (sf_sid fr) (Z.of_N (sf_inc fr)))); [exact I|].
-          exists fr. repeat split; assumption.
-        - destruct (sf_kind fr); try discriminate; apply D_refl. }
-      rewrite <- (app_nil_r (frame_grants fr)). eapply D_trans; [exact T|].
-      set (c1 := if fkind_eqb (sf_kind fr) KWinUpd then _ else c).
-      pose proof (dispatch_D c1 fr NZ) as DD. destruct (cl_dispatch dec_field c1 fr) as [c2 r]. cbn [fst] in DD.
-      destruct r; [exact DD | | exact DD |].
-      * eapply D_trans0; [exact DD | apply rl_exit_D; exact I].
-      * eapply D_trans0; [exact DD | apply rl_panic_D; exact I].
-  - destruct (fkind_eqb (sf_kind fr) KCont) eqn:KC; cbn [negb orb andb].
-    + destruct (sf_sid fr =? cc_hdrStream c) eqn:SS; cbn [negb].
-      * (* a CONTINUATION frame of the block that is open *)
-        apply fkind_eqb_eq in KC. unfold frame_grants. rewrite KC. cbn [fkind_eqb].
-        pose proof (dispatch_D c fr NZ) as DD. destruct (cl_dispatch dec_field c fr) as [c2 r]. cbn [fst] in DD.
-        destruct r; [exact DD | | exact DD |].
-        -- eapply D_trans0; [exact DD | apply rl_exit_D; exact I].
-        -- eapply D_trans0; [exact DD | apply rl_panic_D; exact I].
-      * eapply D_trans0; [apply (D_any _ _ _ _ (anym_ev_ok _)), set_last_err_D | apply rl_exit_D; exact I].
-    + eapply D_trans0; [apply (D_any _ _ _ _ (anym_ev_ok _)), set_last_err_D | apply rl_exit_D; exact I].
+  - destruct (fkind_eqb (sf_kind fr) KCont) eqn:KC; cbn [negb andb]; [apply EXIT; reflexivity|].
+    (* in sequence *)
+    assert (T : D (ev_ok (CEvRL (RFrame fr))) (frame_grants fr) c
+                  (if fkind_eqb (sf_kind fr) KWinUpd then cl_add_window c (sf_sid fr) (Z.of_N (sf_inc fr)) else c)).
+    { unfold frame_grants. destruct (fkind_eqb (sf_kind fr) KWinUpd) eqn:KW.
+      - apply fkind_eqb_eq in KW. rewrite KW.
+        apply (D_one1 _ (MAddWindow (sf_sid fr) (Z.of_N (sf_inc fr)))); [exact I| |reflexivity].
+        exists fr. repeat split; assumption.
+      - destruct (sf_kind fr); try discriminate; apply D_refl. }
+    assert (R : (if fkind_eqb (sf_kind fr) KData then match snd (cl_dispatch dec_field c fr) with CDStuck => [] | _ => [fr] end else []) =
+                match snd (cl_dispatch dec_field (if fkind_eqb (sf_kind fr) KWinUpd then cl_add_window c (sf_sid fr) (Z.of_N (sf_inc fr)) else c) fr)
+                with CDStuck => [] | _ => datar fr end).
+    { unfold datar. destruct (sf_kind fr); cbn [fkind_eqb]; try reflexivity;
+        match goal with |- _ = match ?x with _ => _ end => destruct x; reflexivity end. }
+    rewrite R. clear R.
+    set (c1 := if fkind_eqb (sf_kind fr) KWinUpd then _ else c) in *.
+    pose proof (dispatch_D c1 fr NZ) as DD0. destruct (cl_dispatch dec_field c1 fr) as [c2 r]. cbn [fst snd] in DD0 |- *.
+    assert (X : DD (ev_ok (CEvRL (RFrame fr))) (frame_grants fr) (match r with CDStuck => [] | _ => datar fr end) c c2).
+    { pose proof (DD_trans hstate enc_field enc_set_max _ _ _ _ _ _ _ _ T DD0) as H. rewrite app_nil_r in H. exact H. }
+    destruct r; [exact X | | exact X |].
+    + apply (DD_trans0r _ _ _ _ c2); [exact X | apply rl_exit_D; exact I].
+    + apply (DD_trans0r _ _ _ _ c2); [exact X | apply rl_panic_D; exact I].
+  - destruct (fkind_eqb (sf_kind fr) KCont) eqn:KC; cbn [negb orb andb]; [|apply EXIT; reflexivity].
+    destruct (sf_sid fr =? cc_hdrStream c) eqn:SS; cbn [negb andb]; [|apply EXIT; reflexivity].
+    (* a CONTINUATION frame of the block that is open *)
+    apply fkind_eqb_eq in KC. unfold frame_grants. rewrite KC. cbn [fkind_eqb].
+    pose proof (dispatch_D c fr NZ) as DD0. unfold datar in DD0. rewrite KC in DD0.
+    destruct (cl_dispatch dec_field c fr) as [c2 r]. cbn [fst snd] in DD0.
+    assert (X : D (ev_ok (CEvRL (RFrame fr))) [] c c2) by (destruct r; exact DD0).
+    destruct r; [exact X | | exact X |].
+    + eapply D_trans0; [exact X | apply rl_exit_D; exact I].
+    + eapply D_trans0; [exact X | apply rl_panic_D; exact I].
 Qed.
 
 Lemma rl_step_D (c : cconn) i : cl_rl_live c = true ->
-  D (ev_ok (CEvRL i)) (g_ledger_in c (CEvRL i)) c (cl_rl_step dec_field c i).
+  DD (ev_ok (CEvRL i)) (g_ledger_in c (CEvRL i)) (g_rdata_in c (CEvRL i)) c (cl_rl_step dec_field c i).
 Proof.
-  intro LV. unfold cl_rl_step, g_ledger_in, g_rl_takes. rewrite LV. cbn [andb].
+  intro LV. unfold cl_rl_step, g_ledger_in, g_rdata_in, g_rl_takes. rewrite LV. cbn [andb].
   destruct (cc_netClosed c) eqn:NC; cbn [negb andb].
   { destruct i; try (apply rl_fail_D; exact I). }
   destruct i as [fr| | |]; try (apply rl_fail_D; exact I); [|apply D_refl].
-  destruct (sf_sid fr =? 0) eqn:S0; cbn [orb andb].
+  destruct (sf_sid fr =? 0) eqn:S0; cbn [orb andb negb]; rewrite ?andb_false_r.
   - apply N.eqb_eq in S0. destruct (sf_kind fr) eqn:K; try apply D_refl.
     + (* SETTINGS *)
       destruct (flag_has (sf_flags fr) FL_ES) eqn:ACK; cbn [negb].
       * destruct (cl_settings_deserialize true (sf_payload fr)); [apply D_refl | apply rl_fail_D; exact I].
       * destruct (cl_settings_deserialize false (sf_payload fr)) as [st|] eqn:DS; [|apply rl_fail_D; exact I].
         assert (G : grants_of (MSettings (sf_payload fr) : move) = inits_of (sf_payload fr)) by (cbn [grants_of]; rewrite DS; reflexivity).
-        rewrite <- G. eapply D_eq; [|apply D_one1; [exact I|]].
+        rewrite <- G. eapply D_eq; [|apply D_one1; [exact I| |reflexivity]].
         -- cbn [apply]. rewrite DS. reflexivity.
         -- exists fr. repeat split; assumption.
     + (* PING *)
       destruct (flag_has (sf_flags fr) FL_ES).
-      * apply (D_step _ _ (MUnacks (cc_unacks c - 1)%Z)); [exact I | exact I | reflexivity |]. apply D_refl.
-      * apply (D_step _ _ (MOutQPush (COPingAck (sf_payload fr)))); [exact I | exact I | reflexivity |]. apply D_refl.
+      * apply (D_step _ _ (MUnacks (cc_unacks c - 1)%Z)); [exact I | exact I | split; reflexivity |]. apply D_refl.
+      * apply (D_step _ _ (MOutQPush (COPingAck (sf_payload fr)))); [exact I | exact I | split; reflexivity |]. apply D_refl.
     + (* GOAWAY *)
       pose proof (goaway_D (CEvRL (RFrame fr)) c (sf_dep fr) I) as GD.
       destruct (cl_goaway c (sf_dep fr)) as [c1 st]. cbn [fst] in GD. destruct st; [exact GD|].
       eapply D_trans0; [exact GD|].
       assert (NZ : sf_kind fr = KData -> sf_sid fr <> 0) by (rewrite K; discriminate).
-      pose proof (rl_frame_D c1 fr NZ) as RF. unfold frame_grants in RF. rewrite K in RF.
-      destruct (if cc_hdrStream c1 =? 0 then _ else _); exact RF.
+      pose proof (rl_frame_D c1 fr NZ) as RF. unfold frame_grants in RF. rewrite K in RF. cbn [fkind_eqb] in RF.
+      rewrite andb_false_r in RF. destruct (in_seq c1 fr); exact RF.
     + (* WINDOW_UPDATE for the connection *)
       rewrite S0.
-      apply (D_one1 _ (MAddWindow 0 (Z.of_N (sf_inc fr)))); [exact I|].
+      apply (D_one1 _ (MAddWindow 0 (Z.of_N (sf_inc fr)))); [exact I| |reflexivity].
       exists fr. repeat split; [exact K | symmetry; exact S0].
   - assert (NZ : sf_kind fr = KData -> sf_sid fr <> 0) by (intros _; apply N.eqb_neq; exact S0).
-    pose proof (rl_frame_D c fr NZ) as RF. unfold frame_grants in RF.
+    pose proof (rl_frame_D c fr NZ) as RF. unfold frame_grants, in_seq in RF.
     destruct (if cc_hdrStream c =? 0 then _ else _).
-    + destruct (sf_kind fr) eqn:K; exact RF.
+    + cbn [andb] in RF |- *. destruct (sf_kind fr) eqn:K; cbn [fkind_eqb] in RF |- *; exact RF.
     + exact RF.
 Qed.
 
 (* ---------- every step is a sequence of moves ---------- *)
 
-Theorem step_D (c : cconn) e : D (ev_ok e) (g_ledger_in c e) c (step c e).
+Theorem step_D (c : cconn) e : DD (ev_ok e) (g_ledger_in c e) (g_rdata_in c e) c (step c e).
 Proof.
-  destruct e as [tag rq q|tag| | |order| | |i|tag|tag|tag| | |]; cbn [cl_step g_ledger_in].
+  destruct e as [tag rq q|tag| | |order| | |i|tag|tag|tag| | |]; cbn [cl_step g_ledger_in g_rdata_in].
   - apply (D_any _ _ _ _ (anym_ev_ok _)), submit_D.
   - apply (D_any _ _ _ _ (anym_ev_ok _)), submit_check_D.
-  - destruct (cl_wl_live c); [apply wl_in_D; exact I | apply D_refl].
+  - destruct (cl_wl_live c); [apply wl_in_D; reflexivity | apply D_refl].
   - destruct (cl_wl_live c); [apply wl_out_D; exact I | apply D_refl].
-  - destruct (cl_wl_live c); [apply wl_win_D; exact I | apply D_refl].
+  - destruct (cl_wl_live c); [apply wl_win_D | apply D_refl].
   - destruct (cl_wl_live c); [apply wl_ping_D; exact I | apply D_refl].
   - destruct (cl_wl_live c); [apply wl_done_D; exact I | apply D_refl].
   - destruct (cl_rl_live c) eqn:LV.
     + apply rl_step_D; exact LV.
-    + assert (G : g_ledger_in c (CEvRL i) = []).
-      { unfold g_ledger_in, g_rl_takes. rewrite LV. destruct i; reflexivity. }
-      change (match i with RFrame fr => _ | _ => [] end) with (g_ledger_in c (CEvRL i)). rewrite G. apply D_refl.
+    + assert (G : g_ledger_in c (CEvRL i) = [] /\ g_rdata_in c (CEvRL i) = []).
+      { unfold g_ledger_in, g_rdata_in, g_rl_takes. rewrite LV. destruct i; split; reflexivity. }
+      destruct G as [G1 G2]. unfold g_ledger_in, g_rdata_in in G1, G2. rewrite G1, G2. apply D_refl.
   - apply (D_any _ _ _ _ (anym_ev_ok _)), timeout_fire_D.
   - apply (D_any _ _ _ _ (anym_ev_ok _)), timeout_cancel_D.
   - apply (D_any _ _ _ _ (anym_ev_ok _)), receive_D.
   - apply (D_any _ _ _ _ (anym_ev_ok _)), close_call_D.
   - apply (D_any _ _ _ _ (anym_ev_ok _)), close_finish_D.
-  - apply (D_step _ _ MWriteFail); [exact I | exact I | reflexivity |]. apply D_refl.
+  - apply (D_step _ _ MWriteFail); [exact I | exact I | split; reflexivity |]. apply D_refl.
 Qed.
 
 End Decomp.
